@@ -40,6 +40,16 @@ static TaskPlan gen_task(Rng &r, bool thorough, char force_dtype = 0) {
         t.ops.push_back(o);
     }
     if (r.chance(0.2)) { Op n2; n2.kind = "new"; n2.slot = 1; n2.mat = 1; t.ops.push_back(n2); Op o; gen_options(r, o, false, cplx); o.kind = "pipe"; o.slot = 1; o.stages = 0; o.equil = 0; t.ops.push_back(o); }
+    { // stand-alone utilities (conversion, copies, sparse product, printing, MC64 with every job) somewhere in the task;
+      // own stream, derived from the task drawn so far, so that the tasks themselves stay what they were
+        uint64_t vb = 0; memcpy(&vb, &t.mats[0].re[0], sizeof vb);
+        Rng ru(mix3(0x0909, (uint64_t)t.mats[0].nnz() * 1315423911ULL + t.ops.size(), vb));
+        if (ru.chance(0.25)) {
+            Op u; u.kind = "util"; u.slot = 0; u.stages = 1 + (int)ru.below(63); u.nrhs = ru.range(1, 3); u.ldpad = ru.chance(0.4) ? 2 : 0;
+            u.trans = ru.chance(0.5) ? TRANS : NOTRANS; u.rhs_seed = ru.next();
+            t.ops.insert(t.ops.begin() + 1 + (size_t)ru.below(t.ops.size()), u);
+        }
+    }
     Op d; d.kind = "destroy"; t.ops.push_back(d); Op d1; d1.kind = "destroy"; d1.slot = 1; t.ops.push_back(d1);
     return t;
 }
